@@ -49,6 +49,20 @@ def rejection_cases(draw, max_n=60, logprobs=False):
     return case
 
 
+@st.composite
+def large_cases(draw, logprobs=False):
+    """Libraries large enough for implementations that treat big batches specially (block-wise reads, memory bounds):
+    tens of thousands of rows per batch, few batches."""
+    case = draw(rejection_cases(max_n=4, logprobs=logprobs))
+    per = draw(st.sampled_from([8192, 16384, 32768, 65536]))
+    nb = draw(st.sampled_from([2, 2, 3]))
+    case.update(n=per * nb + draw(st.integers(1, 9)) if per <= 32768 else per + draw(st.integers(1, 9)),
+                n_batches=nb, path=draw(st.sampled_from(["file", "cache"])), n_prior=None, max_post=None, n_linear=1,
+                profile=draw(st.sampled_from(["spike", "range", "last_only"])), steer=None, lib_units=None, lib_history=None,
+                pool_order=None, ln_prior_neg_inf=False, randomize=draw(st.sampled_from([True, True, False])))
+    return case
+
+
 def profile_of(case):
     vals = np.random.default_rng(case["profile_seed"]).random(case["n"])
     return fakes.make_profile(case["profile"], case["n"], vals) + float(case.get("ll_shift", 0.0))
